@@ -62,3 +62,54 @@ Example c05_witness :
   = [(2, [1;2;3;10;4;5;6;10]%N, WErr 7%N); (3, [1;1;1;1;1;1;1;1;1]%N, WOk);
      (4, [1;2;3;10;4;5;6;10]%N, WOk); (5, [9;9;9;9;9;9;9;10]%N, WOk)].
 Proof. vm_compute. reflexivity. Qed.
+
+(* ==== added after the audit of 2026-10-02 (selftest/audit/REPORT-2026-10-02.md) ==== *)
+Require Import Cadence.Proofs.AuditW.
+
+(* [A.18] ghost erasure (the theorem Model/Writer.v announces as WriterProofs.erasure).
+   [AuditW.erase] forgets the ghost data of a state: the pending identities [bids] and, of every
+   logged attempt, the label and the operation number (it keeps [written], [cap], the buffer, the
+   terminator, the fault script and the (bytes, outcome) of every attempt).  [AuditW.p_step],
+   [p_run_from], [p_run], [p_drop] are the model functions with every ghost argument removed.
+   Erasing commutes with every function of the model: results, bytes handed to the underlying
+   writer, outcomes consumed and the non-ghost state never depend on ghost data *)
+Theorem c05_erasure_step : forall s n o,
+  p_step (erase s) o = (fst (step s n o), erase (snd (step s n o))).
+Proof. exact erasure_step. Qed.
+
+Theorem c05_erasure_run_from : forall ops s n,
+  p_run_from (erase s) ops = (fst (run_from s n ops), erase (snd (run_from s n ops))).
+Proof. exact erasure_run_from. Qed.
+
+Theorem c05_erasure_run : forall c e script ops,
+  p_run c e script ops = (fst (run c e script ops), erase (snd (run c e script ops))).
+Proof. exact erasure_run. Qed.
+
+(* the same without the ghost-free copy: two states that differ only in ghost data, driven by the
+   same operations numbered in any two ways, answer the same and again differ only in ghost data *)
+Theorem c05_ghost_irrelevant : forall ops s1 s2 n1 n2,
+  erase s1 = erase s2 ->
+  fst (run_from s1 n1 ops) = fst (run_from s2 n2 ops) /\
+  erase (snd (run_from s1 n1 ops)) = erase (snd (run_from s2 n2 ops)).
+Proof. exact ghost_irrelevant_run. Qed.
+
+Theorem c05_ghost_irrelevant_drop : forall s1 s2 n1 n2,
+  erase s1 = erase s2 -> erase (mlw_drop s1 n1) = erase (mlw_drop s2 n2).
+Proof. exact ghost_irrelevant_drop. Qed.
+
+(* what "differ only in ghost data" means *)
+Theorem c05_erase_keeps : forall s1 s2,
+  erase s1 = erase s2 <->
+  written s1 = written s2 /\ cap s1 = cap s2 /\ bbuf s1 = bbuf s2 /\ ending s1 = ending s2 /\
+  sc s1 = sc s2 /\ map a_bytes (lg s1) = map a_bytes (lg s2) /\ map a_out (lg s1) = map a_out (lg s2).
+Proof. exact erase_keeps. Qed.
+
+(* non-vacuity: scrambled pending identities and other operation numbers, same behaviour *)
+Example c05_erasure_witness :
+  let s1 := init 8 [10%N] [WIntr; WErr 3%N] in
+  let ops := [Emit [1;2;3]; Emit [4;5]; Emit [6;7;8]; Flush; Emit [1;1;1;1;1;1;1;1;1]; Flush]%N in
+  let '(r1, t1) := run_from s1 0 ops in
+  let '(r2, t2) := run_from (set_buf s1 [] [(7, [9%N]); (7, [9%N])]) 40 ops in
+  r1 = r2 /\ erase t1 = erase t2 /\ map a_op (lg t1) <> map a_op (lg t2) /\
+  r1 = [OOk 3; OOk 2; OErr 3%N; OOk 0; OOk 9; OOk 0].
+Proof. vm_compute. repeat split; try reflexivity. discriminate. Qed.
